@@ -291,14 +291,39 @@ func genHostPort(r *core.Rand) string {
 // ---- cases ----
 
 func (P) Gen(r *core.Rand, tier string, emit func([]string)) {
-	nBasic, nExp, nConc, nRef, nOdd, nLib, nVfy := 12, 4, 6, 4, 5, 60, 25
+	nBasic, nExp, nConc, nRef, nOdd, nLib, nVfy, nPoll := 12, 4, 6, 4, 5, 60, 25, 1
 	if tier == "thorough" {
-		nBasic, nExp, nConc, nRef, nOdd, nLib, nVfy = 160, 30, 60, 30, 60, 3000, 600
+		nBasic, nExp, nConc, nRef, nOdd, nLib, nVfy, nPoll = 160, 30, 60, 30, 60, 3000, 600, 8
+	}
+	// the configuration space: the CA may be of any key kind NewConfig accepts (its signature says `interface{}`)
+	caOp := func(num, den int) []string {
+		if r.Chance(num, den) {
+			return []string{"ca " + r.Pick(caKinds...)}
+		}
+		return nil
+	}
+	for i := 0; i < nPoll; i++ { // steady traffic to a host across the end of its 2-second leaf (and of a second one, 300 ms out of phase)
+		p := []string{genBase(r), genBase(r)}
+		ops := append(caOp(1, 2), "realtime", "validity 2")
+		ops = append(ops, "get host "+core.HexS(spell(r, p[0]))+" -", fmt.Sprintf("sleep %d", r.Range(200, 400)), "get host "+core.HexS(spell(r, p[1]))+" -")
+		for j, iv := 0, r.Range(25, 50); j*iv < 2500; j++ {
+			ops = append(ops, fmt.Sprintf("sleep %d", iv))
+			h := p[j%2]
+			if r.Chance(1, 6) {
+				ops = append(ops, "hs host "+core.HexS(spell(r, h))+" -")
+			} else {
+				ops = append(ops, "get host "+core.HexS(spell(r, h))+" -")
+			}
+		}
+		emit(ops)
 	}
 	orgs := []string{"Martian Proxy", "Acme", "Org With Spaces, Inc.", "x"}
 	for i := 0; i < nBasic; i++ {
 		p := pool(r, r.Range(2, 5))
-		var ops []string
+		ops := caOp(1, 2)
+		if r.Chance(1, 4) {
+			ops = append(ops, "h2 1")
+		}
 		if r.Chance(1, 2) {
 			ops = append(ops, "org "+core.HexS(r.Pick(orgs...)))
 		}
@@ -331,7 +356,7 @@ func (P) Gen(r *core.Rand, tier string, emit func([]string)) {
 	}
 	for i := 0; i < nExp; i++ { // expiry: 2-second certificates, sleep past the window, ask again
 		p := pool(r, r.Range(2, 4))
-		ops := []string{"validity 2"}
+		ops := append(caOp(1, 3), "realtime", "validity 2")
 		for round := 0; round < 2; round++ {
 			for j := 0; j < r.Range(3, 6); j++ {
 				ops = append(ops, getOp(r, p, j%2 == 1))
@@ -357,7 +382,7 @@ func (P) Gen(r *core.Rand, tier string, emit func([]string)) {
 	}
 	for i := 0; i < nConc; i++ {
 		p := pool(r, 4)
-		var ops []string
+		ops := caOp(1, 3)
 		for j := 0; j < r.Intn(4); j++ {
 			ops = append(ops, getOp(r, p, false))
 		}
@@ -372,7 +397,7 @@ func (P) Gen(r *core.Rand, tier string, emit func([]string)) {
 	}
 	for i := 0; i < nRef; i++ { // refusal: no SNI and no usable fallback, next to hosts that must be served
 		p := pool(r, 2)
-		var ops []string
+		ops := caOp(1, 3)
 		for j := 0; j < 8; j++ {
 			op := r.Pick("get", "get", "hs")
 			switch r.Intn(4) {
